@@ -1335,7 +1335,9 @@ pub fn c08(ctx: &mut Ctx) {
         }
     }
     let alt: Vec<Vec<u8>> = vec![b"ACAC".to_vec(), b"CCA".to_vec(), b"AAAAAA".to_vec()];
-    let cfgs: [(usize, f64); 5] = [(1, 0.5), (2, 1.0), (4, 6.0), (2, 1e-8), (1, 4e-9)];
+    // (threads, ceiling): one / two / four workers crossed with the three regimes of the ceiling (below 1: a flush
+    // after every record; whole GiB: one flush at the end; a few bases: the counting step runs in several chunks)
+    let cfgs: [(usize, f64); 9] = [(1, 0.5), (1, 6.0), (1, 4e-9), (2, 0.5), (2, 1.0), (2, 1e-8), (4, 0.99), (4, 6.0), (4, 2e-8)];
     let mut sh = ctx.shard;
     let mut n = 0u64;
     for l in &lists {
